@@ -389,6 +389,9 @@ class Engine(object):
         if cond is False:
             raise PathAbort()
         self._add(cond)
+        # an assumption that contradicts the decisions already taken on this path ends the path (no input reaches here)
+        if not is_nonlinear(cond) and self.solver.check() == z3.unsat:
+            raise PathAbort()
 
     def feasible(self, cond, precise=False):
         t0 = time.time()
